@@ -227,27 +227,32 @@ pub fn run_history(args: &[&str]) -> String {
             let mut cache = NodeCache::with_interner(&mut interner);
             history(&mut cache, &builds, Some(&flag))
         }
+        #[cfg(feature = "lasso")]
         "r" => {
             let mut interner: lasso::Rodeo<lasso::Spur> = lasso::Rodeo::new();
             let mut cache = NodeCache::with_interner(&mut interner);
             history(&mut cache, &builds, None)
         }
+        #[cfg(feature = "lasso")]
         "m" => {
             let mut interner: lasso::Rodeo<lasso::MiniSpur> = lasso::Rodeo::new();
             let mut cache = NodeCache::with_interner(&mut interner);
             history(&mut cache, &builds, None)
         }
+        #[cfg(feature = "lasso")]
         "t" => {
             let mut interner = cstree::interning::new_threaded_interner();
             let mut cache = NodeCache::with_interner(&mut interner);
             history(&mut cache, &builds, None)
         }
+        #[cfg(feature = "lasso")]
         "h" => {
             let interner: lasso::ThreadedRodeo<lasso::Spur> = lasso::ThreadedRodeo::new();
             let mut shared = &interner;
             let mut cache = NodeCache::with_interner(&mut shared);
             history(&mut cache, &builds, None)
         }
+        #[cfg(feature = "lasso")]
         "a" => {
             let mut interner = std::sync::Arc::new(cstree::interning::new_threaded_interner());
             let mut cache = NodeCache::with_interner(&mut interner);
